@@ -1,7 +1,6 @@
 /-
-  Chains of transformations: every admissible chain maps a well-nested stream
-  to a well-nested stream (induction over the chain with the invariant
-  "well nested, and `Good` unless the last selection was inverted").
+  Helper lemmas for chains: select keeps the events, the wrappers of the shared
+  selection loop, balanced literal content.
 -/
 import Genshi.Lemmas.TfCut
 namespace Genshi.Tf
@@ -78,232 +77,9 @@ theorem bal_ensureStr (t : Str) : Bal (evsOf (ensureStr t)) := by
     unfold Bal at *
     rw [balance_skip _ (by rfl)]; exact ih
 
-/-- literal content is balanced (buffer contents are outside this theorem) -/
-def Content.Ok : Content → Prop
-  | .str _ => True
-  | .evs s => Bal s
-  | .buf _ => False
-
-theorem content_bal (b : Bufs) {c : Content} (h : c.Ok) : Bal (evsOf (content b c)) := by
-  cases c with
-  | str t => exact bal_ensureStr t
-  | evs s => simpa [content, evsOf_map_ev, Content.Ok] using h
-  | buf id => exact absurd h (by simp [Content.Ok])
-
-/-! ### admissible chains -/
-
-/-- operations whose nesting claim needs a `Good` marking -/
-def Op.OkGood : Op → Prop
-  | .filter _ => False
-  | .replace c => c.Ok
-  | .before c => c.Ok
-  | .after c => c.Ok
-  | .prepend c => c.Ok
-  | .append c => c.Ok
-  | _ => True
-
-/-- operations admitted while the selection is inverted (documented precondition: a new
-    `select` / `end` must come before anything that acts on contiguous selections) -/
-def Op.OkDirty : Op → Prop
-  | .select _ => True
-  | .endSel => True
-  | .invert => True
-  | .buffer => True
-  | .mapBang _ => True
-  | .subst _ _ _ => True
-  | .attr _ _ => True
-  | _ => False
-
-/-- is the marking `Good` after the operation? -/
-def Op.next (good : Bool) : Op → Bool
-  | .select _ => true
-  | .endSel => true
-  | .invert => false
-  | _ => good
-
-def Admissible : Bool → List Op → Prop
-  | _, [] => True
-  | good, op :: ops => (if good then op.OkGood else op.OkDirty) ∧ Admissible (op.next good) ops
-
 theorem runGo_wn {pre post : MStream} (keep : Bool) (hw : Wrapper (unmark pre) (unmark post))
     {s : MStream} (hg : Good s) (h : WellNested (unmark s)) :
     WellNested (unmark (runGo pre post keep .idle s)) := by
   unfold WellNested; rw [(runGo_balance keep hw hg).1 []]; exact h
-
-theorem applyOp_good (b : Bufs) (op : Op) {s s' : MStream} {b' : Bufs}
-    (hok : op.OkGood) (hg : Good s) (hwn : WellNested (unmark s))
-    (hsel : op.selOkAt s = true)
-    (h : applyOp b op s = some (s', b')) :
-    WellNested (unmark s') ∧ (op.next true = true → Good s') := by
-  cases op with
-  | select rs =>
-    simp only [Op.selOkAt] at hsel
-    obtain ⟨g, f⟩ := select_good rs s hwn hsel
-    simp only [applyOp, select, f, ↓reduceIte, Option.map_some, Option.some.injEq, Prod.mk.injEq] at h
-    obtain ⟨rfl, _⟩ := h
-    exact ⟨by rw [unmark_selectGo_ok 0 rs s hsel]; exact hwn, fun _ => g⟩
-  | invert =>
-    simp only [applyOp, Option.some.injEq, Prod.mk.injEq] at h
-    obtain ⟨rfl, _⟩ := h
-    exact ⟨by rw [unmark_invert]; exact hwn, fun h => by simp [Op.next] at h⟩
-  | endSel =>
-    simp only [applyOp, Option.some.injEq, Prod.mk.injEq] at h
-    obtain ⟨rfl, _⟩ := h
-    exact ⟨by rw [unmark_endSel]; exact hwn, fun _ => endSel_good hwn⟩
-  | empty =>
-    simp only [applyOp, Option.some.injEq, Prod.mk.injEq] at h
-    obtain ⟨rfl, _⟩ := h
-    exact ⟨by unfold WellNested; rw [empty_balance hg]; exact hwn, fun _ => empty_good hg⟩
-  | remove =>
-    simp only [applyOp, Option.some.injEq, Prod.mk.injEq] at h
-    obtain ⟨rfl, _⟩ := h
-    exact ⟨by unfold WellNested remove; rw [remove_balance hg]; exact hwn, fun _ => remove_good s⟩
-  | unwrap =>
-    simp only [applyOp, Option.some.injEq, Prod.mk.injEq] at h
-    obtain ⟨rfl, _⟩ := h
-    exact ⟨by unfold WellNested; rw [unwrap_balance hg]; exact hwn, fun _ => unwrap_good hg⟩
-  | wrap t a =>
-    simp only [applyOp, Option.some.injEq, Prod.mk.injEq] at h
-    obtain ⟨rfl, _⟩ := h
-    have hw : Wrapper (unmark (inj ([Event.start t a].map MEv.ev))) (unmark [(none, MEv.ev (.end_ t))]) := by
-      simpa [inj, unmark] using wrapper_elem t a
-    exact ⟨runGo_wn true hw hg hwn,
-      fun _ => (runGo_good true (inj_noneMarked _) (by intro p hp; simp at hp; simp [hp]) hg).1⟩
-  | replace c =>
-    simp only [applyOp, Option.some.injEq, Prod.mk.injEq] at h
-    obtain ⟨rfl, _⟩ := h
-    have hw : Wrapper (unmark (inj (content b c))) (unmark []) := by
-      rw [unmark_inj]; exact wrapper_inject (content_bal b hok)
-    exact ⟨runGo_wn false hw hg hwn,
-      fun _ => (runGo_good false (inj_noneMarked _) (by intro p hp; simp at hp) hg).1⟩
-  | before c =>
-    simp only [applyOp, Option.some.injEq, Prod.mk.injEq] at h
-    obtain ⟨rfl, _⟩ := h
-    have hw : Wrapper (unmark (inj (content b c))) (unmark []) := by
-      rw [unmark_inj]; exact wrapper_inject (content_bal b hok)
-    exact ⟨runGo_wn true hw hg hwn,
-      fun _ => (runGo_good true (inj_noneMarked _) (by intro p hp; simp at hp) hg).1⟩
-  | after c =>
-    simp only [applyOp, Option.some.injEq, Prod.mk.injEq] at h
-    obtain ⟨rfl, _⟩ := h
-    have hw : Wrapper (unmark []) (unmark (inj (content b c))) := by
-      rw [unmark_inj]; exact wrapper_after (content_bal b hok)
-    exact ⟨runGo_wn true hw hg hwn,
-      fun _ => (runGo_good true (by intro p hp; simp at hp) (inj_noneMarked _) hg).1⟩
-  | prepend c =>
-    simp only [applyOp, Option.some.injEq, Prod.mk.injEq] at h
-    obtain ⟨rfl, _⟩ := h
-    exact ⟨by unfold WellNested; rw [prepend_balance _ (content_bal b hok) hg]; exact hwn,
-      fun _ => prepend_good _ (content_bal b hok) hg⟩
-  | append c =>
-    simp only [applyOp, Option.some.injEq, Prod.mk.injEq] at h
-    obtain ⟨rfl, _⟩ := h
-    exact ⟨by unfold WellNested; rw [append_balance _ (content_bal b hok) hg]; exact hwn,
-      fun _ => append_good _ (content_bal b hok) hg⟩
-  | attr n v =>
-    simp only [applyOp, Option.some.injEq, Prod.mk.injEq] at h
-    obtain ⟨rfl, _⟩ := h
-    exact ⟨by unfold WellNested setAttr; rw [map_balance (attrEv_effPres n v)]; exact hwn,
-      fun _ => map_good (attrEv_effPres n v) hg⟩
-  | rename n =>
-    simp only [applyOp, Option.some.injEq, Prod.mk.injEq] at h
-    obtain ⟨rfl, _⟩ := h
-    exact ⟨by unfold WellNested; rw [rename_balance n hg]; exact hwn, fun _ => rename_good n hg⟩
-  | copy id acc =>
-    simp only [applyOp, Option.some.injEq, Prod.mk.injEq] at h
-    obtain ⟨rfl, _⟩ := h
-    rw [copy_id]; exact ⟨hwn, fun _ => hg⟩
-  | cut id acc =>
-    simp only [applyOp, Option.map_eq_some_iff, Prod.mk.injEq] at h
-    obtain ⟨out, hc, rfl, _⟩ := h
-    obtain ⟨g, bal⟩ := cut_good hg hc
-    exact ⟨by unfold WellNested; rw [bal]; exact hwn, fun _ => g⟩
-  | buffer =>
-    simp only [applyOp, Option.some.injEq, Prod.mk.injEq] at h
-    obtain ⟨rfl, _⟩ := h
-    exact ⟨hwn, fun _ => hg⟩
-  | mapBang all =>
-    simp only [applyOp, Option.some.injEq, Prod.mk.injEq] at h
-    obtain ⟨rfl, _⟩ := h
-    exact ⟨by unfold WellNested mapBang; rw [map_balance (mapBangEv_effPres all)]; exact hwn,
-      fun _ => map_good (mapBangEv_effPres all) hg⟩
-  | subst p r n =>
-    simp only [applyOp, Option.some.injEq, Prod.mk.injEq] at h
-    obtain ⟨rfl, _⟩ := h
-    exact ⟨by unfold WellNested substitute; rw [map_balance (substEv_effPres p r n)]; exact hwn,
-      fun _ => map_good (substEv_effPres p r n) hg⟩
-  | filter d => exact absurd hok (by simp [Op.OkGood])
-
-theorem applyOp_dirty (b : Bufs) (op : Op) {s s' : MStream} {b' : Bufs}
-    (hok : op.OkDirty) (hwn : WellNested (unmark s))
-    (hsel : op.selOkAt s = true)
-    (h : applyOp b op s = some (s', b')) :
-    WellNested (unmark s') ∧ (op.next false = true → Good s') := by
-  cases op with
-  | select rs =>
-    simp only [Op.selOkAt] at hsel
-    obtain ⟨g, f⟩ := select_good rs s hwn hsel
-    simp only [applyOp, select, f, ↓reduceIte, Option.map_some, Option.some.injEq, Prod.mk.injEq] at h
-    obtain ⟨rfl, _⟩ := h
-    exact ⟨by rw [unmark_selectGo_ok 0 rs s hsel]; exact hwn, fun _ => g⟩
-  | invert =>
-    simp only [applyOp, Option.some.injEq, Prod.mk.injEq] at h
-    obtain ⟨rfl, _⟩ := h
-    exact ⟨by rw [unmark_invert]; exact hwn, fun h => by simp [Op.next] at h⟩
-  | endSel =>
-    simp only [applyOp, Option.some.injEq, Prod.mk.injEq] at h
-    obtain ⟨rfl, _⟩ := h
-    exact ⟨by rw [unmark_endSel]; exact hwn, fun _ => endSel_good hwn⟩
-  | buffer =>
-    simp only [applyOp, Option.some.injEq, Prod.mk.injEq] at h
-    obtain ⟨rfl, _⟩ := h
-    exact ⟨hwn, fun h => by simp [Op.next] at h⟩
-  | attr n v =>
-    simp only [applyOp, Option.some.injEq, Prod.mk.injEq] at h
-    obtain ⟨rfl, _⟩ := h
-    exact ⟨by unfold WellNested setAttr; rw [map_balance (attrEv_effPres n v)]; exact hwn,
-      fun h => by simp [Op.next] at h⟩
-  | mapBang all =>
-    simp only [applyOp, Option.some.injEq, Prod.mk.injEq] at h
-    obtain ⟨rfl, _⟩ := h
-    exact ⟨by unfold WellNested mapBang; rw [map_balance (mapBangEv_effPres all)]; exact hwn,
-      fun h => by simp [Op.next] at h⟩
-  | subst p r n =>
-    simp only [applyOp, Option.some.injEq, Prod.mk.injEq] at h
-    obtain ⟨rfl, _⟩ := h
-    exact ⟨by unfold WellNested substitute; rw [map_balance (substEv_effPres p r n)]; exact hwn,
-      fun h => by simp [Op.next] at h⟩
-  | _ => exact absurd hok (by simp [Op.OkDirty])
-
-theorem runChain_wellnested : ∀ (ops : List Op) (good : Bool) (b : Bufs) (s : MStream),
-    Admissible good ops → WellNested (unmark s) → (good = true → Good s) →
-    chainSelOk ops b s = true →
-    ∀ out b', runChain ops b s = some (out, b') → WellNested (unmark out) := by
-  intro ops
-  induction ops with
-  | nil =>
-    intro good b s _ hwn _ _ out b' h
-    simp only [runChain, Option.some.injEq, Prod.mk.injEq] at h
-    obtain ⟨rfl, _⟩ := h
-    exact hwn
-  | cons op ops ih =>
-    intro good b s hadm hwn hg hsel out b' h
-    simp only [runChain] at h
-    simp only [chainSelOk, Bool.and_eq_true] at hsel
-    cases ha : applyOp b op s with
-    | none => simp [ha] at h
-    | some r =>
-      obtain ⟨s1, b1⟩ := r
-      simp only [ha] at h hsel
-      obtain ⟨hadm1, hadm2⟩ := hadm
-      cases good with
-      | true =>
-        simp only [↓reduceIte] at hadm1
-        obtain ⟨hwn1, hg1⟩ := applyOp_good b op hadm1 (hg rfl) hwn hsel.1 ha
-        exact ih (op.next true) b1 s1 hadm2 hwn1 hg1 hsel.2 out b' h
-      | false =>
-        simp only [Bool.false_eq_true, ↓reduceIte] at hadm1
-        obtain ⟨hwn1, hg1⟩ := applyOp_dirty b op hadm1 hwn hsel.1 ha
-        exact ih (op.next false) b1 s1 hadm2 hwn1 hg1 hsel.2 out b' h
 
 end Genshi.Tf
